@@ -60,6 +60,7 @@ type mrec struct {
 	ver     string
 	unbound bool // written by PutMany: version not returned, bound at first observation
 	exp     *time.Time
+	lag     time.Duration // how long the backend may legitimately keep the record past exp (network latency)
 }
 
 type model struct {
@@ -67,6 +68,10 @@ type model struct {
 	used map[string]bool // every version ever observed
 	// grace window around expiry instants (C06): within it both answers are accepted
 	grace time.Duration
+	// over a slow network a relative TTL starts to count when the writing command reaches
+	// the server: a record outlives its ExpiresAt by the latency of the commands that
+	// follow the computation of the TTL (one for SET/SETNX, three for the CAS transaction)
+	LagWrite, LagCas time.Duration
 	// number of comparisons that fell into a grace window
 	InWindow int
 	// LaxVersions: do not judge version strings (C06 is about existence only)
@@ -89,7 +94,7 @@ func (m *model) liveness(key string, t0, t1 time.Time) int {
 	if t1.Add(m.grace).Before(*r.exp) {
 		return 1
 	}
-	if r.exp.Before(t0.Add(-m.grace)) {
+	if r.exp.Before(t0.Add(-m.grace - r.lag)) {
 		return 0
 	}
 	return -1
@@ -194,7 +199,7 @@ func (m *model) applyCreate(key, val string, exp *time.Time, o *outcome, t0, t1 
 			msgs = append(msgs, msg)
 			continue
 		}
-		m.recs[key] = &mrec{val: val, ver: o.Ver, exp: exp}
+		m.recs[key] = &mrec{val: val, ver: o.Ver, exp: exp, lag: m.LagWrite}
 		return ""
 	}
 	return strings.Join(msgs, " | ")
@@ -258,7 +263,7 @@ func (m *model) applyPut(key, val string, exp *time.Time, o *outcome) string {
 	if o.Val != val {
 		return fmt.Sprintf("Put(%q) returned a record with value %q, written %q", key, o.Val, val)
 	}
-	m.recs[key] = &mrec{val: val, ver: o.Ver, exp: exp}
+	m.recs[key] = &mrec{val: val, ver: o.Ver, exp: exp, lag: m.LagWrite}
 	return ""
 }
 
@@ -268,7 +273,7 @@ func (m *model) applyPutMany(keys, vals []string, exps []*time.Time, o *outcome)
 	}
 	for i, k := range keys {
 		// a key repeated in the batch: the last record wins
-		m.recs[k] = &mrec{val: vals[i], unbound: true, exp: exps[i]}
+		m.recs[k] = &mrec{val: vals[i], unbound: true, exp: exps[i], lag: m.LagWrite}
 	}
 	return ""
 }
@@ -300,7 +305,7 @@ func (m *model) applyCas(key, val, ver string, exp *time.Time, o *outcome, t0, t
 				msgs = append(msgs, msg)
 				continue
 			}
-			m.recs[key] = &mrec{val: val, ver: o.Ver, exp: exp}
+			m.recs[key] = &mrec{val: val, ver: o.Ver, exp: exp, lag: m.LagCas}
 			return ""
 		}
 		if o.Err != "ErrConflict" {
